@@ -45,7 +45,7 @@ def sort_case(draw, tier, max_records=60, force_all_ref=None):
             d_["sn"] = ren.get(d_["sn"], d_["sn"])
     ids = list(g["nodes"])
     untag = draw(st.lists(st.sampled_from(ids), max_size=max(1, len(ids) // 5), unique=True))
-    extra = c08.tag_graph(g, untag)
+    extra = c08.tag_graph(g, untag, no_scale=draw(st.sampled_from([1, 1, 5])), bo_scale=draw(st.sampled_from([1, 1, 11])))
     lm = models.LinkModel(g["links"])
     big = draw(st.integers(0, 5)) == 0
     n = draw(st.integers(12, max_records)) if big else draw(st.integers(1, min(max_records, 25)))
@@ -63,6 +63,8 @@ def sort_case(draw, tier, max_records=60, force_all_ref=None):
                                   start_pool=refs if (mode == "all_ref") else None, prefix=prefix))
         if big:
             rec["tags"] = rec["tags"] + ["zq:Z:" + "k" * draw(st.integers(2000, 9000))]
+        if draw(st.integers(0, 6)) == 0:
+            rec["strand"] = "-"
         lines.append(gen_gaf.record_line(rec))
     data_len = sum(len(l) + 1 for l in lines)
     comp = None
@@ -77,6 +79,7 @@ def sort_case(draw, tier, max_records=60, force_all_ref=None):
         "bgzip_out": draw(st.integers(0, 2)) > 0,
         "final_newline": True if comp else draw(st.sampled_from([True, True, False])),
         "outind": draw(st.booleans()),
+        "via": draw(st.sampled_from(["api", "api", "cli"])),
     }
 
 
@@ -115,7 +118,11 @@ def run_sort(case, d):
         core.write_text(inp, text)
     out = d + ("/out.gaf.gz" if case["bgzip_out"] else "/out.gaf")
     ind = d + "/custom.idx" if case.get("outind") else None
-    res = core.call(rs, d + "/g.gfa", inp, outgaf=out, outind=ind, bgzip=case["bgzip_out"])
+    if case.get("via", "api") == "cli":
+        argv = ["sort", inp, d + "/g.gfa", "--outgaf", out] + (["--outind", ind] if ind else []) + (["--bgzip"] if case["bgzip_out"] else [])
+        res = core.cli(argv)
+    else:
+        res = core.call(rs, d + "/g.gfa", inp, outgaf=out, outind=ind, bgzip=case["bgzip_out"])
     lines = None
     try:
         if case["bgzip_out"]:
@@ -131,7 +138,8 @@ def run_sort(case, d):
 
 
 def classes_of(case, nodes, exp):
-    cl = ["in:bgzf" if case.get("bgzf") else "in:plain", "out:bgzf" if case["bgzip_out"] else "out:plain"]
+    cl = ["in:bgzf" if case.get("bgzf") else "in:plain", "out:bgzf" if case["bgzip_out"] else "out:plain",
+          "via:" + case.get("via", "api")]
     size = sum(len(l) + 1 for l in case["gaf"])
     if size > 65536:
         cl.append("larger_than_64KiB")
@@ -171,5 +179,14 @@ def run_case(case):
         raise core.Violation("output is not the input records plus bo/sn/iv: expected-but-missing %r, unexpected %r"
                              % (missing, extra))
     cl = classes_of(case, nodes, exp)
+    if case.get("via") == "cli" and not case["bgzip_out"] and len(lines) <= 25:
+        # the documented default: without --outgaf the sorted records go to standard output
+        with core.workdir() as d:
+            core.write_text(d + "/g.gfa", case["gfa"])
+            core.write_text(d + "/in.gaf", "".join(l + "\n" for l in lines))
+            r = core.cli(["sort", d + "/in.gaf", d + "/g.gfa"], capture_stdout=True)
+        core.check(r[0] == "ok", "sort to standard output failed: %s", r)
+        core.check(r[1].split("\n")[:-1] == out, "sort to standard output differs from --outgaf output")
+        cl.append("stdout")
     nontrivial = len(lines) >= 3 and bool({"iv=1", "sn=unknown", "reverse_anchor"} & set(cl))
     return core.Result(nontrivial, cl)
